@@ -185,3 +185,83 @@ HARNESSES.append(dual_harness(
     ["skactiveml.classifier._wrapper:SlidingWindowClassifier.fit", "skactiveml.classifier._wrapper:SlidingWindowClassifier.partial_fit",
      "skactiveml.classifier._wrapper:SlidingWindowClassifier._add_samples", "skactiveml.classifier._wrapper:SlidingWindowClassifier._fit"],
     required_witnesses=("ran",), max_paths=40000))
+
+
+# ---------------------------------------------------------------- refit = fresh fit (history-carrying wrapped estimators)
+def _warm_classifier(npm):
+    """a scikit-learn classifier whose fit ACCUMULATES what it has seen (warm_start-like): if a wrapper re-fits the
+    object of an earlier fit instead of a fresh copy, the log has more than one entry"""
+    from sklearn.base import BaseEstimator, ClassifierMixin
+
+    class Warm(ClassifierMixin, BaseEstimator):
+        def fit(self, X, y, sample_weight=None):
+            self.fit_log_ = list(getattr(self, "fit_log_", [])) + [(X, y, sample_weight)]
+            self.classes_ = npm.unique(y)
+            return self
+
+        def predict_proba(self, X):
+            raise NotImplementedError
+    return Warm()
+
+
+def _warm_regressor(npm):
+    from sklearn.base import BaseEstimator, RegressorMixin
+
+    class WarmReg(RegressorMixin, BaseEstimator):
+        def fit(self, X, y, sample_weight=None):
+            self.fit_log_ = list(getattr(self, "fit_log_", [])) + [(X, y, sample_weight)]
+            return self
+
+        def predict(self, X, return_std=False):
+            raise NotImplementedError
+    return WarmReg()
+
+
+def sc_refit(d, kind, n1, n2):
+    """fit(D1) then fit(D2) on one object: the wrapped estimator must have been trained on D2 only, exactly once"""
+    NAN = float("nan")
+
+    def data(tag, n):
+        xs = [d.fl(f"x{tag}_{i}") for i in range(n)]
+        lab = [d.choose(f"label{tag}_{i}", [-1, 0, 1]) for i in range(n)]
+        if kind == "classifier":
+            yv = [NAN if k < 0 else float(k) for k in lab]
+        else:
+            yv = [NAN if k < 0 else d.fl(f"y{tag}_{i}") for i, k in enumerate(lab)]
+        return xs, lab, yv, d.arr([[x] for x in xs], shape=(n, 1)), d.arr(yv)
+    if kind == "classifier":
+        from skactiveml.classifier import SklearnClassifier
+        est = SklearnClassifier(_warm_classifier(d.np), classes=[0.0, 1.0])
+    elif kind == "regressor":
+        from skactiveml.regressor import SklearnRegressor
+        est = SklearnRegressor(_warm_regressor(d.np))
+    else:
+        from skactiveml.regressor import SklearnNormalRegressor
+        est = SklearnNormalRegressor(_warm_regressor(d.np))
+    xs1, lab1, yv1, X1, y1 = data("a", n1)
+    xs2, lab2, yv2, X2, y2 = data("b", n2)
+    est.fit(X1, y1)
+    est.fit(X2, y2)
+    keep = [i for i in range(n2) if lab2[i] >= 0]
+    log = getattr(est.estimator_, "fit_log_", [])
+    if kind == "classifier" and not keep:
+        d.prove(len(log) == 0, "second_fit_uses_a_fresh_estimator", info=dict(fits_seen=len(log)))
+        d.witness(True, "second_fit_without_labels")
+        return
+    d.prove(len(log) == 1, "second_fit_uses_a_fresh_estimator", info=dict(fits_seen=len(log)))
+    if len(log) >= 1:
+        Xr, yr, _ = log[-1]
+        d.prove(d.eq_arr(Xr, d.arr([[xs2[i]] for i in keep], shape=(len(keep), 1))), "second_fit_sees_only_second_data:rows")
+        if kind == "classifier":
+            d.prove(d.eq_arr(yr, d.arr([float(lab2[i]) for i in keep])), "second_fit_sees_only_second_data:labels")
+        else:
+            d.prove(d.eq_arr(yr, d.arr([yv2[i] for i in keep])), "second_fit_sees_only_second_data:labels")
+    d.witness(any(k >= 0 for k in lab1) and bool(keep), "both_fits_with_labels")
+
+
+HARNESSES.append(dual_harness(
+    "refit_history_free", sc_refit,
+    lambda tier: [dict(kind=k, n1=a, n2=b) for k in ("classifier", "regressor", "normal_regressor")
+                  for a, b in (((2, 2),) if tier == "quick" else ((2, 2), (1, 3), (3, 2)))],
+    ["skactiveml.classifier._wrapper:SklearnClassifier._fit", "skactiveml.regressor._wrapper:SklearnRegressor._fit"],
+    required_witnesses=("both_fits_with_labels",)))
